@@ -191,6 +191,38 @@ static int drain_compressed_stream(tar_iterator_t *tar)
 	return ret < 0 ? ret : 0;
 }
 
+/*
+  sqfs_istream_skip() stops silently at the end of the stream. What is
+  skipped here is announced by the archive, so it has to be there.
+ */
+static int skip_record_bytes(tar_iterator_t *tar, sqfs_u64 size)
+{
+	while (size > 0) {
+		const sqfs_u8 *ptr;
+		size_t diff;
+		int ret;
+
+		ret = tar->stream->get_buffered_data(tar->stream, &ptr,
+						     &diff, size);
+		if (ret < 0)
+			return ret;
+
+		if (ret > 0) {
+			fputs("Reading tar archive: unexpected end-of-file.\n",
+			      stderr);
+			return SQFS_ERROR_CORRUPTED;
+		}
+
+		if ((sqfs_u64)diff > size)
+			diff = size;
+
+		tar->stream->advance_buffer(tar->stream, diff);
+		size -= diff;
+	}
+
+	return 0;
+}
+
 static int it_next(sqfs_dir_iterator_t *it, sqfs_dir_entry_t **out)
 {
 	tar_iterator_t *tar = (tar_iterator_t *)it;
@@ -205,13 +237,13 @@ static int it_next(sqfs_dir_iterator_t *it, sqfs_dir_entry_t **out)
 		return tar->state;
 retry:
 	if (tar->record_size > 0) {
-		ret = sqfs_istream_skip(tar->stream, tar->record_size);
+		ret = skip_record_bytes(tar, tar->record_size);
 		if (ret)
 			goto fail;
 	}
 
 	if (tar->padding > 0) {
-		ret = sqfs_istream_skip(tar->stream, tar->padding);
+		ret = skip_record_bytes(tar, tar->padding);
 		if (ret)
 			goto fail;
 	}
